@@ -118,7 +118,7 @@ type Decision struct {
 
 // Node is one honest participant and everything observed about it.
 type Node struct {
-	W        *World
+	W *World
 	// Byz marks a "personality" of a Byzantine member: a real participant that the
 	// coalition runs once per partition side (two-faced adversary). It is never
 	// checked by monitors and its decisions do not count.
@@ -131,9 +131,9 @@ type Node struct {
 	AlarmSet bool
 	Started  bool
 	Decided  map[uint64]*Decision
-	Bases    map[uint64]*gpbft.TipSet   // base the node entered each instance with
-	Inputs   map[uint64]*gpbft.ECChain  // what GetProposal returned
-	Sent     []*Sent                    // every RequestBroadcast, in order
+	Bases    map[uint64]*gpbft.TipSet  // base the node entered each instance with
+	Inputs   map[uint64]*gpbft.ECChain // what GetProposal returned
+	Sent     []*Sent                   // every RequestBroadcast, in order
 	byInst   map[gpbft.Instant]*gpbft.GMessage
 	Errors   []string
 	Mon      *Monitor
@@ -145,12 +145,12 @@ type Node struct {
 }
 
 type World struct {
-	Cfg     *Config
-	Nodes   []*Node
+	Cfg   *Config
+	Nodes []*Node
 	// Personas are the two-faced Byzantine personalities (Idx continues after Nodes)
 	Personas []*Node
 	// Group is the partition side of every honest node (index into Nodes)
-	Group map[int]int
+	Group   map[int]int
 	ByIdx   map[gpbft.ActorID]int
 	Now     time.Time
 	Pool    []*Pending
@@ -166,14 +166,18 @@ type World struct {
 	// NoLoss: honest-to-honest messages may not be dropped (C06 regime)
 	ByzEverSent bool
 	Tracer      *tracer
+	// HoldRound is the round whose COMMITs the "late-commit"/"hijack" profiles withhold
+	HoldRound uint64
+	hijacked  map[[2]uint64]bool
 }
 
 type Stats struct {
 	Delivered, Dropped, Duplicated, AlarmsFired, ByzSent, ByzAccepted, ByzRejected int
-	InvalidByHonest                                                               int
-	MaxRound                                                                      uint64
+	InvalidByHonest                                                                int
+	MaxRound                                                                       uint64
 	Sways, SkipsRound, SkipsDecide, Rebroadcasts                                   int
-	LateCommitDecisions                                                           int
+	LateCommitDecisions                                                            int
+	HijackConverges, HijackCommits, ForgedFloods                                   int
 }
 
 type tracer struct{ w *World }
